@@ -2216,8 +2216,32 @@ impl Monitor for GroupA {
                     a.seq.toks.len() == 1 && matches!(a.seq.toks[0].node, Node::Tree { lead: true, trail: false })
                 });
                 match self.id {
-                    "C09" => c09_paths(&q, &is_match, &case.paths, &case.alphabet, case.ast.as_ref(), ctx, rpt, &mut rng),
-                    "C10" => c10_paths(&q, &is_match, &case.paths, ctx, rpt, &[]),
+                    "C09" | "C10" => {
+                        if self.id == "C09" {
+                            c09_paths(&q, &is_match, &case.paths, &case.alphabet, case.ast.as_ref(), ctx, rpt, &mut rng);
+                        }
+                        else {
+                            c10_paths(&q, &is_match, &case.paths, ctx, rpt, &[]);
+                        }
+                        // The same pattern after conversion to an owned value (the owned glob keeps
+                        // the compiled program but rebuilds the token tree the queries read).
+                        for (route, owned) in [
+                            ("into_owned", guarded(|| case.glob.clone().into_owned())),
+                            ("from_str", guarded(|| case.expr.parse::<Glob<'static>>().ok()).flatten()),
+                        ] {
+                            if let Some(o) = owned {
+                                let qo = query(&o, json!({"glob": clip(case.expr), "route": route}), false, model_of(&[case.expr]), &[case.expr]);
+                                let is_match_o = |p: &str| guarded(|| o.is_match(p));
+                                if self.id == "C09" {
+                                    c09_paths(&qo, &is_match_o, &case.paths, &case.alphabet, case.ast.as_ref(), ctx, rpt, &mut rng);
+                                }
+                                else {
+                                    c10_paths(&qo, &is_match_o, &case.paths, ctx, rpt, &[]);
+                                }
+                                rpt.bucket("owned-route-checked");
+                            }
+                        }
+                    },
                     "C11" => {
                         c11_paths(&q, &is_match, &case.paths, lists_sep, ctx, rpt, &mut rng, &case.alphabet);
                         // The same pattern after conversion to an owned value.
@@ -2235,6 +2259,27 @@ impl Monitor for GroupA {
                     },
                     _ => {
                         c12_paths(&q, &is_match, &case.paths, ctx, rpt, only_rooted_tree);
+                        for (route, owned) in [
+                            ("into_owned", guarded(|| case.glob.clone().into_owned())),
+                            ("from_str", guarded(|| case.expr.parse::<Glob<'static>>().ok()).flatten()),
+                        ] {
+                            if let Some(o) = owned {
+                                let qo = query(&o, json!({"glob": clip(case.expr), "route": route}), false, model_of(&[case.expr]), &[case.expr]);
+                                let is_match_o = |p: &str| guarded(|| o.is_match(p));
+                                c12_paths(&qo, &is_match_o, &case.paths, ctx, rpt, only_rooted_tree);
+                                if case.ast.as_ref().map_or(false, |a| a.notes.is_empty() && has_semantic_component(a))
+                                    && guarded(|| o.has_semantic_literals()) == Some(false)
+                                {
+                                    rpt.disagreement(
+                                        &ctx.known,
+                                        "semantic-literal-component-not-reported",
+                                        None,
+                                        json!({"expr": clip(case.expr), "route": route}),
+                                    );
+                                }
+                                rpt.bucket("owned-route-checked");
+                            }
+                        }
                         if let Some(ast) = &case.ast {
                             if ast.notes.is_empty() {
                                 let expected = has_semantic_component(ast);
